@@ -1020,7 +1020,7 @@ func main() {
 		thorough := f.Tier == "thorough"
 		mult := 1
 		if thorough {
-			mult = 6
+			mult = 20
 		}
 		if f.Search {
 			mult *= 5
